@@ -1881,6 +1881,14 @@ fn propagate_section_attributes<'data, P: Platform>(
             .for_each(|section_id, attributes| {
                 if let Some(attributes) = attributes {
                     attributes.apply(output_sections, section_id);
+
+                    // A secondary section is emitted as part of its primary section, which is what
+                    // the layout consults for flags, so the primary needs these attributes too. It
+                    // might not have any input sections of its own.
+                    let primary_id = output_sections.primary_output_section(section_id);
+                    if primary_id != section_id {
+                        attributes.apply(output_sections, primary_id);
+                    }
                 }
             });
     }
